@@ -80,6 +80,9 @@ def _judge_c11(v, job, res, stats):
     shape = _shape(n, mask, start)
     if job.get("layout"):
         shape += "|import-layout=" + LAYOUTS[job["layout"]]
+    ns_of = job.get("ns_of") or list(range(n))
+    if job.get("ns_of"):
+        shape += "|files-share-a-namespace"
     where = {"n": n, "mask": mask, "start": start, "dup": job.get("dup", False), "layout": LAYOUTS[job.get("layout", 0)],
              "edges": [(i, j) for i in range(n) for j in range(n) if mask >> (i * n + j) & 1]}
     if res.get("watchdog"):
@@ -133,7 +136,7 @@ def _judge_c11(v, job, res, stats):
     owners = {}
     for tag, ms in mods.items():
         for mo in ms:
-            owners.setdefault(mo, set()).add(tag)
+            owners.setdefault(mo, set()).add(ns_of[TAGS.index(tag)])
     for mo, tags in owners.items():
         if mo and len(tags) > 1:
             v.violation(f"C11|two-files-in-one-module|shape={shape}", {"job": where, "module": mo, "files": sorted(tags)})
@@ -194,6 +197,13 @@ def c11(tier):
                 if r.random() < 0.3:
                     mask |= 1 << b
             jobs.append({"op": "c11graph", "n": n, "mask": mask, "start_idx": r.randrange(n), "layout": layout})
+    # one namespace spread over several files (imported by namespace + schemaLocation like any other file)
+    for ns_of in ([0, 0], [0, 0, 0], [0, 0, 2], [0, 1, 1], [0, 1, 0], [0, 1, 0, 1], [0, 0, 0, 3]):
+        n = len(ns_of)
+        masks = range(1, 1 << (n * n)) if n == 2 else [r.randrange(1, 1 << (n * n)) for _ in range(60 if tier == "quick" else 1500)]
+        for mask in masks:
+            jobs.append({"op": "c11graph", "n": n, "mask": mask, "start_idx": r.randrange(n), "ns_of": ns_of,
+                         "layout": r.choice([0, 0, 1, 2])})
     # random graphs over 5..8 files, sparse and dense
     for k in range(96 if tier == "quick" else 4000):
         n = r.randrange(5, 9)
@@ -265,7 +275,8 @@ def c11(tier):
     try:
         for k, j in enumerate(r2.sample(base, min(len(base), 24 if tier == "quick" else 200))):
             n, mask, s = j["n"], j["mask"], j["start_idx"]
-            render = subprocess.run([zdrive, "c11render", str(n), str(mask)], stdout=subprocess.PIPE, env=common.ENV).stdout.decode()
+            render = subprocess.run([zdrive, "c11render", str(n), str(mask), str(j.get("layout", 0)),
+                                     ",".join(map(str, j.get("ns_of") or []))], stdout=subprocess.PIPE, env=common.ENV).stdout.decode()
             texts = {}
             cur = None
             for line in render.splitlines(True):
@@ -328,6 +339,7 @@ def c11(tier):
         "exhaustive_scope": f"all graphs over n<={sizes[-1]} files x all start files ({n_exhaustive} runs); the 5-8 file graphs are sampled",
         "graphs_run": len(jobs), "outcomes": stats["outcomes"], "components_compared": stats["components_compared"],
         "reachable_shapes_seen": shapes,
+        "graphs_with_files_sharing_a_namespace": sum(1 for j in jobs if j.get("ns_of")),
         "import_layouts": {LAYOUTS[k]: sum(1 for j in jobs if j.get("layout", 0) == k) for k in range(len(LAYOUTS))}, "sibling_comparisons": sib_compared, "sibling_variants": sib_variants,
         "inconclusive_cases": stats["inconclusive"],
         "samples": [
